@@ -722,6 +722,7 @@ structure C02St where
   partitioned : Bool := false
   lastReleaseStep : Nat := 0
   fins : List (Nat × Nat × Nat) := []   -- (line, source host, destination host) of every delivered FIN
+  laterClients : List (Nat × Nat) := []   -- connects after the first one, not yet accepted
   res : OResult := {}
 
 def C02St.fail (st : C02St) (ln : Nat) (msg : String) : C02St :=
@@ -757,9 +758,18 @@ def c02Step (st : C02St) (x : Nat × List String × List String) : C02St :=
   | ["ctl", "partition1", _, _] => { st with partitioned := true }
   | ["ctl", "crash", _] => { st with partitioned := true }
   | [h, "tcp_connect", s, _] =>
-    c02Init (if st.client.isNone then { st with client := some (hostTok h, slotTok s) } else st)
+    if st.client.isNone then c02Init { st with client := some (hostTok h, slotTok s) }
+    else
+      -- a later connection of the case (reconnect families): paired with the next successful accept
+      { st with laterClients := st.laterClients ++ [(hostTok h, slotTok s)] }
   | [h, "tcp_accept", _, s] =>
-    if obs.head? == some "ok" && st.server.isNone then c02Init { st with server := some (hostTok h, slotTok s) } else st
+    if obs.head? != some "ok" then st
+    else if st.server.isNone then c02Init { st with server := some (hostTok h, slotTok s) }
+    else match st.laterClients with
+      | c :: rest =>
+        let sv := (hostTok h, slotTok s)
+        { st with laterClients := rest, dirs := st.dirs ++ [{ writer := c, reader := sv }, { writer := sv, reader := c }] }
+      | [] => st
   | [h, w, s, hex] =>
     let who := (hostTok h, slotTok s)
     if w == "tcp_write" || w == "tcp_pwrite" then
@@ -843,7 +853,13 @@ def oracleC02 (lines : List String) (modelCov : List String) : OResult :=
     else res
   let cov := (if st.dirs.any (fun d => d.accepted.length > 8) then ["o:bytes"] else []) ++ (if st.dirs.any (·.eof) then ["o:eof"] else [])
   let res := { res with cov := cov }
-  if !res.ok && modelCov.contains "chanfull" && (res.detail.endsWith "kept reading") then { res with pattern := "F-C02-1" } else res
+  let res := if !res.ok && modelCov.contains "chanfull" && (res.detail.endsWith "kept reading") then { res with pattern := "F-C02-1" } else res
+  -- F-C02-2: a later connection of the case re-used the address pair of an earlier, reset one whose stream
+  -- object is still around, and that old object wrote into / closed the new connection
+  let reused := st.dirs.length > 2 && (kvGet cfgT "ephlo" == kvGet cfgT "ephhi")
+  if !res.ok && res.pattern == "none" && reused &&
+     ((res.detail.splitOn "end-of-file after").length > 1 || (res.detail.splitOn "not a prefix").length > 1 ||
+      (res.detail.splitOn "data after end-of-file").length > 1) then { res with pattern := "F-C02-2" } else res
 
 /-! ### C12 -/
 
